@@ -49,7 +49,7 @@
  "name": "tune_e2p_edit_feature2",
  "props": ["C11"],
  "level": "U/iter",
- "tier": "wip",
+ "tier": "quick",
  "harness": "h_edit_feature2",
  "replace": ["e2p_string2feature"],
  "unwind": 6,
